@@ -14,6 +14,7 @@ MCTar == <<
     [E0 EXCEPT !.path = <<"h">>, !.type = "hardlink", !.link = <<"a", "f">>],
     [E0 EXCEPT !.path = <<"c">>, !.type = "char", !.major = 259, !.minor = 4000, !.mode = 400],
     [E0 EXCEPT !.path = <<"p", "q", "g">>, !.size = 2, !.mode = 384, !.uid = 1000],
+    [E0 EXCEPT !.path = <<"sb">>, !.size = 1, !.mode = 3565],           \* 6755: setuid + setgid
     [E0 EXCEPT !.path = <<"x">>, !.size = 2],
     [E0 EXCEPT !.path = <<"x">>, !.size = 4, !.mode = 493, !.mtime = 2000]
 >>
